@@ -34,10 +34,12 @@ EXTRA = {
     "EVERY reachable grammar node of every dialect evaluated in forward and in reverse order in one ParseContext must be identical (127 k nodes); part E: ONE "
     "sqlfluff.core.Parser object used for every ordered pair (thorough: triple) of 18 colliding inputs (same first token / positions / token count; files needing "
     "exactly, less than and more than max_parse_depth) x {default config, max_parse_depth = smallest value that parses 'SELECT ((1))'}, each result vs a fresh Parser.",
-    "C07": SPAN + "; " + NESTED + ".",
+    "C07": SPAN + "; " + NESTED + "; 216 templates in which a branch whose FORCED rendering raises (so its variant is skipped) is nested in an if without "
+    "else and followed by an if / elif / else whose branches have tags of different lengths.",
     "C08": SPAN + "; " + NESTED + ".",
     "C10": SPAN + "; a template expression / bind parameter in every kind of place (inline comment, block comment, string, code, end of an over-long line: 11 "
-    "shapes) x {jinja, python, 9 placeholder styles} x {default, max_line_length 30}.",
+    "shapes) x {jinja, python, 9 placeholder styles} x {default, max_line_length 30}; expressions whose RENDERED text carries the violation (4 values) in "
+    "the taken branch, in unreached branches and in loop bodies (24 templates x 6 contexts x {all, layout}).",
     "C11": SPAN + "; 12 line-break-like characters (VT, FF, FS, GS, RS, NEL, LS, PS, CR, CRLF, NBSP, BOM) inside a string literal, a comment and between tokens; "
     "the reference text is the INPUT with only CRLF/CR -> LF.",
     "C12": FIXT + "; " + GLUE + "; " + GAPS + "; " + LPROD + " x all; " + ROPT + "; " + LSWEEP + ".",
